@@ -78,6 +78,51 @@ class C08(runner.Prop):
             same_spec(ctx, 'transform/none', spec.transform(), spec)
             same_spec(ctx, 'transform/identity', spec.transform(lambda x: x, lambda x: x), spec)
             same_spec(ctx, 'transform/identity_node_only', optree.treespec_transform(spec, lambda x: x), spec)
+            # each function is called once per node / per leaf, with one-level / leaf treespecs, and is applied also
+            # when given alone: turning every internal node into a tuple of its children (the documented example)
+            # keeps all counts and makes every path positional
+            seen_nodes, seen_leaves = [], []
+
+            def to_tuple(one):
+                seen_nodes.append(one)
+                return optree.treespec_tuple(one.children(), none_is_leaf=nil, namespace=spec.namespace)
+
+            def see_leaf(leafspec):
+                seen_leaves.append(leafspec)
+                return leafspec
+
+            def positional_paths(node, prefix=()):
+                if node.is_leaf:
+                    return [prefix]
+                out = []
+                for i, c in enumerate(node.children):
+                    out += positional_paths(c, prefix + (i,))
+                return out
+            n_internal = spec.num_nodes - spec.num_leaves
+            for tag, call in (('node_only', lambda: spec.transform(to_tuple)),
+                              ('both', lambda: spec.transform(to_tuple, see_leaf)),
+                              ('leaf_only', lambda: spec.transform(None, see_leaf))):
+                del seen_nodes[:], seen_leaves[:]
+                try:
+                    changed = call()
+                except Exception as e:  # noqa: BLE001
+                    ctx.fail(f'transform/{tag}/raises', f'{type(e).__name__}: {e}')
+                    continue
+                want_nodes = n_internal if tag != 'leaf_only' else 0
+                want_leaves = spec.num_leaves if tag != 'node_only' else 0
+                if len(seen_nodes) != want_nodes or len(seen_leaves) != want_leaves:
+                    ctx.fail(f'transform/{tag}/call_count', f'f_node {len(seen_nodes)}/{want_nodes} f_leaf {len(seen_leaves)}/{want_leaves}; {spec}')
+                if any(o.num_nodes != o.num_children + 1 for o in seen_nodes) or any(not l.is_leaf() for l in seen_leaves):
+                    ctx.fail(f'transform/{tag}/argument_shape', f'{seen_nodes[:3]} {seen_leaves[:3]}')
+                if tag == 'leaf_only':
+                    same_spec(ctx, 'transform/leaf_only_identity', changed, spec)
+                    continue
+                if (changed.num_nodes, changed.num_leaves) != (spec.num_nodes, spec.num_leaves):
+                    ctx.fail(f'transform/{tag}/counts', f'{changed} from {spec}')
+                elif not compare.paths_same(changed.paths(), positional_paths(ms)):
+                    ctx.fail(f'transform/{tag}/paths', f'{changed.paths()!r} vs {positional_paths(ms)!r}')
+                elif n_internal and (changed.type is not tuple or any(ch not in '(),* ' for ch in repr(changed)[len('PyTreeSpec('):].split(', NoneIsLeaf')[0].split(', namespace=')[0].rstrip(')') + ')')):
+                    ctx.fail(f'transform/{tag}/not_all_tuples', f'{changed!r}')
             # transform(leaf -> s) == compose(s), and compose == structure of the composite tree
             if cfg['pred'] in ('none', 'never'):
                 U_ = optree.tree_structure(u, **kw)
